@@ -19,15 +19,15 @@ def run(chk):
     chk.assume_note('next_unsealed / apply_tx_batch / seal / header are symbolic events with recorded arguments and arbitrary '
                     'results: their own behaviour is C01-C05, C07, C13, C15-C17; determinism of the three calls is C03')
     for ntx in (1, 2):
-        one(chk, it, ntx)
-    one(chk, it, 2, resigned=True)
+        chk.guard(one, chk, it, ntx)
+    chk.guard(one, chk, it, 2, resigned=True)
     # the proposer action is not a header field: its reward destination reaches the header only through the reward
     # pseudo-coin in the coin tree, which therefore has to be created for every action, whatever the amounts
     from props import c05
     chk.assume_note('the proposer action is committed through the reward pseudo-coin (created for every action with covhash = '
                     'reward_dest, decided here on collect_proposer_action_fee) and the fee multiplier step (C17); a delta '
                     'whose step rounds to zero is not distinguishable by design')
-    c05.reward_kernel(chk, it)
+    chk.guard(c05.reward_kernel, chk, it)
 
 
 def one(chk, it, ntx, resigned=False):
@@ -168,4 +168,13 @@ def replay(chk, model, inputs):
     if 'error' in out:
         raise Inconclusive('replay: ' + out['error'])
     bad = (not out.get('honest_accepted')) or bool(out.get('accepted_mutations')) or bool(out.get('panicked'))
+    if not bad:
+        # an honest block whose transactions depend on each other across kinds: a real (difficulty 1-6) DoscMint and a spend of
+        # its output, built call by call and handed to the parent as one block
+        req2 = {'kind': 'c18_mint', 'difficulty': 6, 'prev_speed': '100'}
+        out2 = harness.run_replay([req2], 'dev')[0]
+        if 'error' in out2:
+            raise Inconclusive('replay: ' + out2['error'])
+        if out2.get('block_findings'):
+            return True, req2, {'block_findings': out2['block_findings']}
     return bad, req, out
